@@ -145,52 +145,64 @@ Section WithLib.
   Definition set_scope (sc : path) (a : marg) : marg :=
     match a with MArg None t m => MArg (Some sc) t m | _ => a end.
 
-  (* pre = the class object is an already instantiated nested class (found in the dictionary of an
-     InstanceClass): its symbols' types are InstanceClass objects already, so line 445-448 takes
-     c = sym.type, whose `extends` list is empty and extends_builtin(c) is False (tree.py:518) *)
-  Fixpoint build (fuel : nat) (pre : bool) (c : cdef) (lex : path) (parent : scope) (menv0 : list marg)
+  (* Two modification lists.  menv0 is processed as written (the first instantiation of the class).
+     menv1 are the arguments that arrive when an ALREADY INSTANTIATED class object is instantiated again:
+     a nested class found in the dictionary of an InstanceClass was instantiated eagerly (403-426), its
+     symbols' types are InstanceClass objects, so for them line 445-448 takes c = sym.type, whose `extends`
+     list is empty: extends_builtin(c) is False (518) and the argument is shifted (542) even when the
+     type is an alias of a built-in.  The class's own modifications were consumed the first time. *)
+  Fixpoint build (fuel : nat) (c : cdef) (lex : path) (parent : scope) (menv0 menv1 : list marg)
     : res inst :=
     match fuel with
     | O => Err OutOfFuel
     | S f =>
-        x <- flatten_extends f c lex menv0 ;;
+        x0 <- flatten_extends f c lex menv0 ;;
+        (* re-instantiating a __builtin instance: 331-341 moves the new arguments to __value as well *)
+        let x := if Pos.eqb (x_kind x0) kBuiltin
+                 then mkExt (x_kind x0) (x_classes x0) (map (add_value_mods menv1) (x_syms x0)) (x_eqs x0) (x_menv x0)
+                 else x0 in
+        let extra0 := if Pos.eqb (x_kind x0) kBuiltin then [] else menv1 in
         let names := map s_name (x_syms x) in
         (* 429-438 *)
         if negb (forallb (fun a => mem_id (head_id (m_target a)) names
-                                   || mem_id (head_id (m_target a)) ATTRIBUTES) (x_menv x))
+                                   || mem_id (head_id (m_target a)) ATTRIBUTES) (x_menv x ++ extra0))
         then Err ModTargetNotFound else
         let me : scope := mkFrame (Some (c_name c)) true (x_classes x) :: parent in
         let myref := scope_ref me in
         (* 441-561 *)
-        (fix go (ss : list sym) (menv : list marg) (acc : list isym) : res inst :=
+        (fix go (ss : list sym) (menv extra : list marg) (acc : list isym) : res inst :=
            match ss with
-           | [] => Ok (Inst myref (x_kind x) (rev acc) (x_eqs x) menv)
+           | [] => Ok (Inst myref (x_kind x) (rev acc) (x_eqs x) (menv ++ extra))
            | s :: ss' =>
                let n := s_name s in
                if mem_id (head_id (s_type s)) BUILTIN then
                  (* 449-497: elementary symbol *)
                  let mine (a : marg) := targets n a
                                         || (Pos.eqb n iValueSym && targets aValue a) in
-                 let args := filter mine menv in
-                 let menv' := filter (fun a => negb (mine a)) menv in
-                 go ss' menv'
+                 let keep (a : marg) := negb (mine a) in
+                 go ss' (filter keep menv) (filter keep extra)
                     (ISym n (s_prefixes s) (s_dims s) (TyElem (s_type s))
-                          (s_mods s ++ flat_map to_symbol_mods args) :: acc)
+                          (s_mods s ++ flat_map to_symbol_mods (filter mine menv)
+                                   ++ flat_map to_symbol_mods (filter mine extra)) :: acc)
                else
                  match lookup me (s_type s) with
                  | None => Err ClassNotFound
                  | Some (tc, tlex, tparent, in_inst) =>
                      (* 499-561 *)
-                     let args := filter (targets n) menv in
-                     let menv' := filter (fun a => negb (targets n a)) menv in
-                     let pre' := pre || in_inst in
-                     ib <- (if pre' then Ok false else extends_builtin f tc tlex) ;;
-                     sm <- (if (ib : bool) then Ok (flat_map to_symbol_mods args) else shift_args args) ;;
-                     let cm := map (set_scope myref) (s_mods s ++ sm) in
-                     i <- build f pre' tc tlex tparent cm ;;
-                     go ss' menv' (ISym n (s_prefixes s) (s_dims s) (TyInst i) [] :: acc)
+                     let keep (a : marg) := negb (targets n a) in
+                     let args0 := filter (targets n) menv in
+                     let args1 := filter (targets n) extra in
+                     ib <- (if in_inst : bool then Ok false else extends_builtin f tc tlex) ;;
+                     sm0 <- (if (ib : bool) then Ok (flat_map to_symbol_mods args0) else shift_args args0) ;;
+                     sm1 <- shift_args args1 ;;
+                     let own := map (set_scope myref) (s_mods s ++ sm0) in
+                     let new := map (set_scope myref) sm1 in
+                     i <- (if in_inst : bool then build f tc tlex tparent [] (own ++ new)
+                           else build f tc tlex tparent own new) ;;
+                     go ss' (filter keep menv) (filter keep extra)
+                        (ISym n (s_prefixes s) (s_dims s) (TyInst i) [] :: acc)
                  end
-           end) (x_syms x) (x_menv x) []
+           end) (x_syms x) (x_menv x) extra0 []
     end.
 
   (* ---------------------------------------------------------------- flat symbols *)
@@ -336,7 +348,7 @@ Section WithLib.
     option_map snd (od_get fst Pos.eqb aValue (f_attrs s)).
 
   Definition is_state_like (s : fsym) : bool :=
-    negb (mem_id pParameter (f_prefixes s) || mem_id pConstant (f_prefixes s)).
+    negb (mem_id pParam (f_prefixes s) || mem_id pConstant (f_prefixes s)).
 
   (* 1155-1158 *)
   Definition flow_eqs (l : list fsym) : list eqn :=
@@ -361,7 +373,7 @@ Section WithLib.
     match lookup (lex_scope root []) top with
     | None => Err ClassNotFound
     | Some (c, lex, parent, _) =>
-        i <- build FUEL false c lex parent [] ;;
+        i <- build FUEL c lex parent [] [] ;;
         r <- flatten_symbols i [] ;;
         let (flat, eqs) := r in
         Ok (map drop_value flat, eqs ++ flow_eqs flat ++ value_eqs flat)
